@@ -6,8 +6,8 @@ from .modelcheck import run_property
 
 def run(tier, seed, verdict):
     quick = tier != "thorough"
-    runs = [mr.ModelRun("MC_C13_quick.cfg" if quick else "MC_C13.cfg", seed, probes=("searches",),
-                        name_pools=[0, 1, 2, 4], stride=5 if quick else 6),
+    runs = [mr.ModelRun("MC_C13_quick.cfg", seed, probes=("searches",),
+                        name_pools=[0, 1, 2, 4], stride=5 if quick else 1),
             mr.ModelRun("MC_C13_links.cfg", seed + 1, probes=("searches",), name_pools=[0, 2],
                         stride=3 if quick else 1)]
     return run_property(
